@@ -32,6 +32,23 @@ def shims():
     from mpf.core.mode import Mode
     Mode.__hash__ = lambda self: hash(("mode", self.name))
     symloop.install()
+    # TestClock.get_datetime calls datetime.fromtimestamp (C): with a symbolic clock hand out a duck-typed instant
+    from mpf.tests import loop as tl
+
+    class _DT:
+        def __init__(self, ts):
+            self._ts = ts
+
+        def timestamp(self):
+            return self._ts
+    orig_dt = tl.TestClock.get_datetime
+
+    def get_datetime(self):
+        try:
+            return orig_dt(self)
+        except TypeError:
+            return _DT(self.get_time() + 100000)
+    tl.TestClock.get_datetime = get_datetime
 
 
 class _Clock:
